@@ -523,6 +523,96 @@ theorem fresh_decl (decls : List (List Char)) (t : Ty) (name : List Char)
   | none => simp [h] at ht
   | some rt => simp [hr, hd]
 
+/-! ### global variables tied to hard registers -/
+
+/-- preconditions under which `create_func_reg` reaches its hard-register table: a register type,
+an unreserved fresh name, a known, type-compatible, non-fixed hard register -/
+def GlobalOk (ds : List RegD) (t : Ty) (rt : RegTy) (name h : List Char) (i : Nat) : Prop :=
+  regTyOfCode t = some rt ∧ reservedName name = false ∧ ds.any (fun d => d.name == name) = false
+    ∧ hardRegIndex h = some i ∧ hardRegTypeOk i rt = true ∧ hardRegFixed i = false
+
+theorem declRegD_global (ds : List RegD) (t : Ty) (rt : RegTy) (name h : List Char) (i : Nat)
+    (hok : GlobalOk ds t rt name h i) :
+    declRegD ds t name (some h) =
+      match ds.find? (fun d => d.hard == some h) with
+      | some d => if d.ty != rt then ⟨.err E_repeated_decl, 0, ds⟩ else ⟨.ok, d.reg, ds⟩
+      | none => ⟨.ok, ds.length + 1, ds ++ [⟨name, rt, ds.length + 1, some h⟩]⟩ := by
+  obtain ⟨h1, h2, h3, h4, h5, h6⟩ := hok
+  unfold declRegD
+  simp only [h1, h2, h3, h4, h5, h6, Bool.false_eq_true, if_false, Bool.not_true, Bool.not_false]
+  cases ds.find? (fun d => d.hard == some h) <;> rfl
+
+/-- `global_shared`: a second variable tied to a hard register that a variable `d` of the function is
+already tied to — whatever the two variable names are — gets the SAME register number when the types
+agree (no new register is created, the table is unchanged), … -/
+theorem global_shared (ds : List RegD) (t : Ty) (rt : RegTy) (name h : List Char) (i : Nat) (d : RegD)
+    (hok : GlobalOk ds t rt name h i) (hd : ds.find? (fun d => d.hard == some h) = some d)
+    (hty : d.ty = rt) :
+    declRegD ds t name (some h) = ⟨.ok, d.reg, ds⟩ := by
+  rw [declRegD_global ds t rt name h i hok, hd]
+  simp [hty]
+
+/-- … and `global_type_conflict`: is a repeated declaration when the types differ -/
+theorem global_type_conflict (ds : List RegD) (t : Ty) (rt : RegTy) (name h : List Char) (i : Nat) (d : RegD)
+    (hok : GlobalOk ds t rt name h i) (hd : ds.find? (fun d => d.hard == some h) = some d)
+    (hty : d.ty ≠ rt) :
+    (declRegD ds t name (some h)).v = .err E_repeated_decl := by
+  rw [declRegD_global ds t rt name h i hok, hd]
+  simp [hty]
+
+/-- `global_fresh`: the first variable tied to a hard register gets the next register number -/
+theorem global_fresh (ds : List RegD) (t : Ty) (rt : RegTy) (name h : List Char) (i : Nat)
+    (hok : GlobalOk ds t rt name h i) (hd : ds.find? (fun d => d.hard == some h) = none) :
+    declRegD ds t name (some h) = ⟨.ok, ds.length + 1, ds ++ [⟨name, rt, ds.length + 1, some h⟩]⟩ := by
+  rw [declRegD_global ds t rt name h i hok, hd]
+
+/-- `global_hard_reg_error`: unknown, type-incompatible (long double never fits) or fixed hard register -/
+theorem global_hard_reg_error (ds : List RegD) (t : Ty) (rt : RegTy) (name h : List Char)
+    (h1 : regTyOfCode t = some rt) (h2 : reservedName name = false)
+    (h3 : ds.any (fun d => d.name == name) = false)
+    (hbad : match hardRegIndex h with
+            | none => True
+            | some i => hardRegTypeOk i rt = false ∨ hardRegFixed i = true) :
+    (declRegD ds t name (some h)).v = .err E_hard_reg := by
+  unfold declRegD
+  simp only [h1, h2, h3, Bool.false_eq_true, if_false]
+  cases hi : hardRegIndex h with
+  | none => rfl
+  | some i =>
+    rw [hi] at hbad
+    simp only
+    rcases hbad with hb | hb
+    · simp [hb]
+    · cases hto : hardRegTypeOk i rt <;> simp [hto, hb]
+
+/-- a local declaration through `declRegD` is `declReg` on the declared names -/
+theorem declRegD_local (ds : List RegD) (t : Ty) (name : List Char) :
+    (declRegD ds t name none).v = declReg (ds.map (·.name)) t name := by
+  unfold declRegD declReg createReg
+  cases regTyOfCode t with
+  | none => rfl
+  | some rt =>
+    have : ds.any (fun d => d.name == name) = (ds.map (·.name)).contains name := by
+      induction ds with
+      | nil => rfl
+      | cons d ds ih =>
+        simp only [List.any_cons, List.map_cons, List.contains_cons, ih]
+        rw [show (d.name == name) = (name == d.name) from BEq.comm]
+    simp only [this]
+    cases reservedName name <;> cases (ds.map (·.name)).contains name <;> simp
+
+example : let ds : List RegD := (declRegD [] .f "ga".toList (some "xmm12".toList)).ds
+    GlobalOk ds .f .f "gb".toList "xmm12".toList 28
+    ∧ (declRegD ds .f "gb".toList (some "xmm12".toList)).v = .ok
+    ∧ (declRegD ds .f "gb".toList (some "xmm12".toList)).reg = 1
+    ∧ (declRegD ds .d "gb".toList (some "xmm12".toList)).v = .err E_repeated_decl
+    ∧ (declRegD ds .d "gb".toList (some "xmm15".toList)).reg = 2
+    ∧ (declRegD ds .ld "gb".toList (some "st0".toList)).v = .err E_hard_reg
+    ∧ (declRegD ds .f "gb".toList (some "xmm8".toList)).v = .err E_hard_reg
+    ∧ (declRegD ds .f "gb".toList (some "rax".toList)).v = .err E_hard_reg := by
+  refine ⟨⟨by decide, by decide, by decide, by decide, by decide, by decide⟩, ?_⟩
+  decide
+
 /-- `use`/`phi` ("used only internally") and `va_start` outside a vararg function are rejected -/
 theorem internal_rejected (fn : Func) (prevs : List Insn) (r j : Bool) (ops : List Operand) :
     insnLevel fn prevs r j ⟨C_USE, ops⟩ = .err E_vararg_func
